@@ -1,0 +1,23 @@
+//go:build verif
+
+package metadata
+
+// This file is only compiled with the `verif` build tag. It exposes unexported pure helper
+// functions to the verification harness under /verif. It adds code only.
+
+// VerifTLSFSizeClass returns the TLSF size-class mapping of a size: memory class, second-level
+// index, free-list index and the size used to look up the next larger list.
+func VerifTLSFSizeClass(size int) (memoryClass uint8, secondIndex uint16, listIndex int, sizeForNextList int) {
+	m := &TLSFBlockMetadata{}
+	memoryClass = m.sizeToMemoryClass(size)
+	secondIndex = m.sizeToSecondIndex(size, memoryClass)
+	listIndex = m.getListIndex(memoryClass, secondIndex)
+	sizeForNextList = m.sizeForNextList(size)
+	return
+}
+
+// VerifBlocksOnSamePage exposes the linear algorithm's page test. It panics like the original
+// when its preconditions do not hold.
+func VerifBlocksOnSamePage(resourceOffset1, resourceSize1, resourceOffset2, pagesize int) bool {
+	return blocksOnSamePage(resourceOffset1, resourceSize1, resourceOffset2, pagesize)
+}
